@@ -45,6 +45,7 @@ type HistCfg struct {
 	Cancel      func(step int) int                       // >= 0: a second client cancels after that many of its own scheduling points
 	ExtraEdit   func(step int, p *Project, d *verifsim.Disk) string // scenario-specific edit applied after the generic ones
 	NoSnapshots bool
+	SkipGeneric func(step int) bool // true: no generic edits in this step (ExtraEdit still runs)
 }
 
 var clockSteps = []time.Duration{0, time.Millisecond, 500 * time.Millisecond, 1500 * time.Millisecond, 3500 * time.Millisecond, 10 * time.Second}
@@ -71,6 +72,9 @@ func RunHistory(rc *RunCtx, p *Project, o *OptModel, d *verifsim.Disk, cfg HistC
 			rec := &BuildRec{Step: step}
 			if step > 0 {
 				n := 1 + g.n(cfg.EditsPerStep)
+				if cfg.SkipGeneric != nil && cfg.SkipGeneric(step) {
+					n = 0
+				}
 				for e := 0; e < n; e++ {
 					rec.Edits = append(rec.Edits, ApplyEdit(g, p, d, cfg.InPlace))
 				}
